@@ -50,7 +50,7 @@ LEVEL_NOTE = ('Trusted: the library\'s inner products (pinned by C02), NumPy '
               'still checked in the weaker form "N = M^T up to the documented '
               'positive frequency-wise constant".')
 DESIGN_REF = 'DESIGN.md section 5, C05'
-BUDGET = {'quick': 1600, 'thorough': 40000}
+BUDGET = {'quick': 5000, 'thorough': 100000}
 K_TOL = 64
 TOLERANCES = {
     'gram': '||N^T G_X - G_Y M||_F <= 64*eps*dim*scale; eps = coarsest '
@@ -552,8 +552,9 @@ def _adjoint_expected(node, A):
     if node.entry in COMBINATORS:
         return 'all operands of this {} offer adjoints'.format(node.entry)
     if node.entry in SCALAR_COMBINATORS:
-        s = complex(node.desc['s'])
-        if s.imag == 0 or fkind(A.domain) == fkind(A.range):
+        # membership in RealNumbers is by type: 3+0j is not a real number
+        if not isinstance(node.desc['s'], complex) or \
+                fkind(A.domain) == fkind(A.range):
             return ('all operands of this {} offer adjoints and the scalar '
                     'lies in both fields'.format(node.entry))
     return ''
@@ -720,7 +721,5 @@ REQUIRED_STRATA = [
     'cls:FlatteningOperator', 'cls:FlatteningOperatorInverse',
     'cls:PartialDerivative', 'cls:Gradient', 'cls:Divergence',
     'cls:Laplacian', 'cls:ResizingOperator',
-    'cls:DiscreteFourierTransform', 'cls:DiscreteFourierTransformInverse',
-    'cls:FourierTransform', 'cls:FourierTransformInverse',
     'cls:WaveletTransform', 'cls:WaveletTransformInverse',
 ]
